@@ -9,8 +9,8 @@
      CMD <inface> <name> <pdec> <app> <qdec>   one management Interest (see Model.v cmd)
      OBS none | ctl <code> <cargs> <nexthop|-> | data <name> <version> <kind> <payload> | panic <text> | hang | ...
      TAB <rib> <fib> <strat> <cs> <faces>      the implementation's tables after the command
-     CSPROBE size=<n> want=<n> stored=<n> capacity=<n>   after an accepted cs/config: 12 more Data were inserted into the real Content
-                                             Store created at start-up; it must hold min(stored, capacity) entries
+     CSPROBE size=<n> want=<n> before=<n> capacity=<n>   after an accepted cs/config: 12 more Data were inserted into the real Content
+                                             Store created at start-up; it must hold min(before + 12, capacity) entries
      CODECDIFF spec=<args>!impl=<args>       (only if) the repository's parser reads a well-formed ControlParameters (protocol TLV
                                              numbers) differently from the independent decoder
      LPMBAD <name>><table hops>!=<lookup hops>+..   (only if) a lookup of a FIB entry's own name does not return that entry's next hops
